@@ -47,7 +47,7 @@ var unOps = []opInfo{{"-", "ItemMinus", 8}, {"!", "LogicNot", 8}}
 
 var identPool = []string{"a", "b", "c", "x1", "foo_bar", "hp%", "a-b", "é", "变量", "_", "٣x", "lets", "iff"}
 var numberPool = []string{"0", "1", "2", "42", "007", "-3", "1.5", ".5", "5.", "-0.25", "9223372036854775807",
-	"9223372036854775808", "-9223372036854775808", "-9223372036854775809", "123456789012345678901234567890",
+	"9007199254740993", "9223372036854775808", "-9223372036854775808", "-9223372036854775809", "123456789012345678901234567890",
 	"0.1", "1.0", "-0", "-0.0", "3.14159", "100000000000000000000000.5", "0.000001", "1.7976931348623157"}
 var stringPool = []string{`"s"`, `""`, `"a b"`, `"é"`, `"q\"q"`, `"\\"`, `"# no comment"`, `"// x"`, `"let"`, "\"\xff\""}
 
